@@ -707,11 +707,19 @@ class Node(object):
                     to_delete.append(srvr)
         else:
             to_delete = self.servers[::1]  # copy
-            for s in self.servers:
+            for s in to_delete:
                 s.shift_end = self.next_event_date
+                if self.schedule.preemption == 'reroute':
+                    # these servers leave before their customers are sent on (idle ones now, busy ones
+                    # when detatched), so that a customer rerouted back to this node cannot take one
+                    s.offduty = True
+                    if s.cust is False:
+                        self.kill_server(s)
+            for s in to_delete:
                 if s.cust is not False:
                     self.interrupt_service(s.cust)
             self.sort_interrupted_individuals()
+            to_delete = [s for s in to_delete if s in self.servers]
         for obs in to_delete:
             self.kill_server(obs)
 
